@@ -123,7 +123,8 @@ class Codecs:
         os.mkdir(self.owners_dir)
         self.rulemgr = rulefile.RuleMgr(self.rules_dir, self.owners_dir)
         self.ldap = {'partition': _ldap.Partition(None), 'cellalloc': _ldap.CellAllocation(None),
-                     'app': _ldap.Application(None)}
+                     'app': _ldap.Application(None), 'server': _ldap.Server(None),
+                     'cell': _ldap.Cell(None)}
         self.zk_n = 0
 
     def close(self):
